@@ -154,12 +154,68 @@ func genResetCase(t *rapid.T, kind string) (ResetCase, *parserExec, bool) {
 		cfg.HashBits = rapid.IntRange(1, 3).Draw(t, "bupHashBits")
 		cfg.BucketSize = rapid.IntRange(2, 4).Draw(t, "bupBucket")
 	}
+	// related: the data after the Reset is the data before it with a few
+	// bytes changed (and a piece of it repeated): what the search structures
+	// still know about H1 then points at almost matching places of H2
+	mode := rapid.IntRange(0, 5).Draw(t, "related")
+	related, abandon := mode <= 2, mode <= 1
+	if related && (abandon || rapid.Bool().Draw(t, "relatedBits")) {
+		hb := rapid.SampledFrom([]int{0, 8, 10, 12, 16}).Draw(t, "relatedHashBits")
+		if abandon && rapid.IntRange(0, 3).Draw(t, "abKeepBits") == 0 {
+			hb = cfg.HashBits
+		}
+		switch kind {
+		case "HP", "BHP", "BUP":
+			cfg.HashBits = hb
+			if cfg.InputLen < 4 {
+				cfg.InputLen = rapid.IntRange(4, 6).Draw(t, "relatedInputLen")
+			}
+		case "DHP", "BDHP":
+			cfg.HashBits1, cfg.HashBits2 = hb, hb
+		}
+	}
+	if abandon && rapid.IntRange(0, 3).Draw(t, "abRoom") > 0 {
+		// room for a text with a match and a stretch of literals behind it
+		if cfg.BufferSize != 0 && cfg.BufferSize < 64 {
+			cfg.BufferSize += 64
+		}
+		if cfg.BlockSize != 0 && cfg.BlockSize < 64 {
+			cfg.BlockSize = rapid.SampledFrom([]int{0, 64, 200, cfg.BlockSize + 24}).Draw(t, "abBlockSize")
+		}
+		if cfg.ShrinkSize >= cfg.BufferSize {
+			cfg.ShrinkSize = 0
+		}
+	}
 	x, err := newParserExec(cfg)
 	if err != nil {
 		return ResetCase{}, nil, false
 	}
-	genParserHistory(t, x, c13Opts())
+	if abandon {
+		return genAbandonCase(t, cfg, x)
+	}
+	o1 := c13Opts()
+	if related {
+		o1.ntl = 60
+		o1.tinyPct, o1.uniformPct = 0, 30
+		o1.maxText = 120
+	}
+	genParserHistory(t, x, o1)
 	split := len(x.log)
+	var h2text []byte
+	if related && len(x.fed) > 0 {
+		h2text = cloneBytes(x.fed)
+		if len(h2text) > 400 {
+			h2text = h2text[:400]
+		}
+		for k := rapid.IntRange(1, 4).Draw(t, "relatedSubst"); k > 0; k-- {
+			h2text[rapid.IntRange(0, len(h2text)-1).Draw(t, "relatedAt")] ^= rapid.SampledFrom([]byte{1, 2, 3, 0x20, 0xff}).Draw(t, "relatedXor")
+		}
+		if rapid.Bool().Draw(t, "relatedRepeat") {
+			a := rapid.IntRange(0, len(h2text)-1).Draw(t, "relatedFrom")
+			b := minInt(len(h2text), a+rapid.IntRange(1, 24).Draw(t, "relatedLen"))
+			h2text = append(h2text, x.fed[a:b]...)
+		}
+	}
 	h1State := x.nSeqBlocks >= 1
 	if kind == "GSAP" || kind == "OSAP" {
 		h1State = h1State && x.contentChanges >= 2
@@ -171,7 +227,14 @@ func genResetCase(t *rapid.T, kind string) (ResetCase, *parserExec, bool) {
 	if rapid.Bool().Draw(t, "resetWithData") {
 		max := minInt(x.cc.BufferSize, 200)
 		n := genSize(t, "resetLen", max, 0, 1, max)
-		data := genText(t, "resetText", maxInt(n, 1))
+		var data []byte
+		if h2text != nil {
+			n = minInt(n, len(h2text))
+			data = cloneBytes(h2text[:n])
+			h2text = append(cloneBytes(h2text[n:]), h2text[:n]...)
+		} else {
+			data = genText(t, "resetText", maxInt(n, 1))
+		}
 		if len(data) > n {
 			data = data[:n]
 		}
@@ -182,9 +245,117 @@ func genResetCase(t *rapid.T, kind string) (ResetCase, *parserExec, bool) {
 	}
 	o := c13Opts()
 	o.resetNil, o.resetDat = 0, 0
+	if len(h2text) > 0 {
+		o.text = h2text
+	}
 	genParserHistory(t, x, o)
 	c := ResetCase{Cfg: cfg, Ops: x.Case().Ops, Split: split}
 	return c, x, h1State
+}
+
+// genAbandonCase: a stream that is abandoned in the middle. H1 puts one text
+// in and parses a part of it, the last call mostly with NoTrailingLiterals, so
+// that the search structures know positions at and behind the parse position;
+// after the Reset the same text comes again with a few bytes changed around
+// that position and pieces of that region repeated behind it.
+func genAbandonCase(t *rapid.T, cfg PCfg, x *parserExec) (ResetCase, *parserExec, bool) {
+	n := rapid.IntRange(12, minInt(maxInt(x.cc.BufferSize, 12), 160)).Draw(t, "abLen")
+	var text []byte
+	noise := func(label string, n int) []byte {
+		// letters that hardly repeat, expanded from one drawn seed
+		k := rapid.SampledFrom([]int{64, 16, 8, 200}).Draw(t, label+"K")
+		z := rapid.Uint64().Draw(t, label+"Seed")
+		out := make([]byte, n)
+		for i := range out {
+			z += 0x9e3779b97f4a7c15
+			y := (z ^ (z >> 30)) * 0xbf58476d1ce4e5b9
+			y = (y ^ (y >> 27)) * 0x94d049bb133111eb
+			out[i] = '0' + byte((y^(y>>31))>>33%uint64(k))
+		}
+		return out
+	}
+	switch rapid.IntRange(0, 3).Draw(t, "abShape") {
+	case 0:
+		text = genText(t, "abText", n)
+	default:
+		// P ... P L: something that matches, then a stretch of literals
+		// (and now and then more of the same behind it)
+		for len(text) < n {
+			p := noise("abP", rapid.IntRange(3, 12).Draw(t, "abPLen"))
+			text = append(text, p...)
+			text = append(text, noise("abGap", rapid.IntRange(0, 6).Draw(t, "abGapLen"))...)
+			text = append(text, p...)
+			text = append(text, noise("abL", rapid.IntRange(3, 24).Draw(t, "abLLen"))...)
+			if rapid.IntRange(0, 2).Draw(t, "abMore") > 0 {
+				break
+			}
+		}
+	}
+	if len(text) == 0 {
+		text = []byte("abcdabcd")
+	}
+	if len(text) > x.cc.BufferSize {
+		text = text[:x.cc.BufferSize]
+	}
+	if rapid.Bool().Draw(t, "abResetIn") {
+		x.step(POp{Op: "reset", Data: cloneBytes(text), Cap: rapid.SampledFrom([]int{0, 7, 8, 64}).Draw(t, "abCap0")})
+	} else {
+		x.step(POp{Op: "write", Data: cloneBytes(text)})
+	}
+	for k := rapid.SampledFrom([]int{0, 0, 0, 1, 2}).Draw(t, "abParses"); k > 0 && !x.dead; k-- {
+		x.step(POp{Op: "parse", Flags: genFlags(t, histOpts{ntl: 30})})
+	}
+	if rapid.IntRange(0, 4).Draw(t, "abLastNTL") > 0 && !x.dead {
+		x.step(POp{Op: "parse", Flags: lz.NoTrailingLiterals})
+	}
+	if x.dead {
+		return ResetCase{}, x, false
+	}
+	split := len(x.log)
+	h1State := x.nSeqBlocks >= 1
+	at := x.w - x.off // parse position within the text
+	if at < 0 || at > len(text) {
+		at = len(text)
+	}
+	m := cloneBytes(text)
+	var tail []byte
+	for k := rapid.IntRange(1, 3).Draw(t, "abSubst"); k > 0; k-- {
+		lo, hi := minInt(at+2, len(m)-1), minInt(at+12, len(m)-1)
+		if rapid.IntRange(0, 3).Draw(t, "abWider") == 0 {
+			lo, hi = maxInt(at-4, 0), minInt(at+24, len(m)-1)
+		}
+		if lo > hi || rapid.IntRange(0, 5).Draw(t, "abAnywhere") == 0 {
+			lo, hi = 0, len(m)-1
+		}
+		q := rapid.IntRange(lo, hi).Draw(t, "abAt")
+		m[q] ^= rapid.SampledFrom([]byte{1, 2, 3, 0x20, 0xff}).Draw(t, "abXor")
+		if rapid.IntRange(0, 3).Draw(t, "abOriginalAgain") > 0 {
+			// what stood there before the change comes again later
+			a := maxInt(q-rapid.IntRange(2, 8).Draw(t, "abBefore"), 0)
+			b := minInt(q+1+rapid.IntRange(0, 4).Draw(t, "abBehind"), len(text))
+			tail = append(tail, text[a:b]...)
+		}
+	}
+	for k := rapid.IntRange(0, 2).Draw(t, "abRepeats"); k > 0; k-- {
+		lo := minInt(maxInt(at-4, 0), len(text)-1)
+		a := rapid.IntRange(lo, len(text)-1).Draw(t, "abFrom")
+		b := minInt(len(text), a+rapid.IntRange(3, 12).Draw(t, "abRepLen"))
+		tail = append(tail, text[a:b]...)
+	}
+	m = append(m, tail...)
+	if len(m) > x.cc.BufferSize {
+		m = m[:x.cc.BufferSize]
+	}
+	if rapid.Bool().Draw(t, "abResetWithData") {
+		x.step(POp{Op: "reset", Data: m, Cap: rapid.SampledFrom([]int{0, 7, 8, 64}).Draw(t, "abCap")})
+	} else {
+		x.step(POp{Op: "reset", Nil: true})
+		x.step(POp{Op: "write", Data: m})
+	}
+	for k := 0; k < 64 && x.unparsed() > 0 && !x.dead; k++ {
+		x.step(POp{Op: "parse"})
+	}
+	return ResetCase{Cfg: cfg, Ops: x.Case().Ops, Split: split}, x, h1State
 }
 
 func TestC13(t *testing.T) {
@@ -624,6 +795,9 @@ type c13EnumCase struct {
 	Cfg PCfg  `json:"cfg"`
 	H1  Bytes `json:"h1"`
 	H2  Bytes `json:"h2enum"`
+	// H1NTL: the calls that parse H1 carry NoTrailingLiterals (which leaves
+	// search-structure entries in front of the parse position)
+	H1NTL bool `json:"h1ntl,omitempty"`
 }
 
 type enumBlock struct {
@@ -633,13 +807,17 @@ type enumBlock struct {
 }
 
 func enumParseAll(p lz.Parser, data []byte, out []enumBlock) []enumBlock {
+	return enumParseFlags(p, data, out, 0)
+}
+
+func enumParseFlags(p lz.Parser, data []byte, out []enumBlock, flags int) []enumBlock {
 	out = out[:0]
 	if _, err := p.Write(data); err != nil {
 		return append(out, enumBlock{-1, "write: " + err.Error(), ""})
 	}
 	var blk lz.Block
 	for i := 0; i < len(data)+2; i++ {
-		n, err := p.Parse(&blk, 0)
+		n, err := p.Parse(&blk, flags)
 		if err != nil {
 			break
 		}
@@ -667,7 +845,11 @@ func checkC13Enum(c c13EnumCase) (string, bool, error) {
 	if err != nil {
 		return "", false, errConfigRejected
 	}
-	enumParseAll(p, c.H1, nil)
+	h1flags := 0
+	if c.H1NTL {
+		h1flags = lz.NoTrailingLiterals
+	}
+	enumParseFlags(p, c.H1, nil, h1flags)
 	if err := p.Reset(nil); err != nil {
 		return "Reset(nil) failed: " + err.Error(), true, nil
 	}
@@ -703,7 +885,7 @@ func TestC13Enum(t *testing.T) {
 		{Kind: "GSAP", MinMatchLen: 2, BufferSize: 32, WindowSize: 32, BlockSize: 32},
 		{Kind: "OSAP", MinMatchLen: 2, MaxMatchLen: 4, BufferSize: 32, WindowSize: 32, BlockSize: 32},
 	}
-	run := func(cfg PCfg, m1, m2 int) {
+	run := func(cfg PCfg, m1, m2 int, h1flags int) {
 		// what a new parser emits for every H2
 		var h2s [][]byte
 		enumStrings(2, m2, func(s []byte) {
@@ -739,11 +921,11 @@ func TestC13Enum(t *testing.T) {
 			for i, h2 := range h2s {
 				cnt++
 				_ = p.Reset(nil)
-				scratch = enumParseAll(p, h1, scratch)
+				scratch = enumParseFlags(p, h1, scratch, h1flags)
 				_ = p.Reset(nil)
 				got = enumParseAll(p, h2, got)
 				if !sameEnumBlocks(got, want[i]) {
-					c := c13EnumCase{Cfg: cfg, H1: cloneBytes(h1), H2: cloneBytes(h2)}
+					c := c13EnumCase{Cfg: cfg, H1: cloneBytes(h1), H2: cloneBytes(h2), H1NTL: h1flags != 0}
 					msg, bad, _ := checkC13Enum(c)
 					if !bad {
 						// the chain of earlier pairs left the state behind
@@ -759,12 +941,26 @@ func TestC13Enum(t *testing.T) {
 		st.class("enumerated:" + cfg.Kind)
 	}
 	for _, cfg := range cfgs {
-		run(cfg, h1max, h2max)
+		run(cfg, h1max, h2max, 0)
 	}
 	for _, cfg := range saCfgs {
-		run(cfg, minInt(h1max, 5), minInt(h2max, 6))
+		run(cfg, minInt(h1max, 5), minInt(h2max, 6), 0)
+	}
+	// H1 parsed with NoTrailingLiterals, also with tables that are large
+	// compared to what was entered (where clearing may be done selectively)
+	ntlCfgs := append([]PCfg(nil), cfgs...)
+	ntlCfgs = append(ntlCfgs,
+		PCfg{Kind: "HP", InputLen: 4, HashBits: 8, BufferSize: 64, WindowSize: 64, BlockSize: 64},
+		PCfg{Kind: "HP", InputLen: 5, HashBits: 10, BufferSize: 64, WindowSize: 64, BlockSize: 5},
+		PCfg{Kind: "BHP", InputLen: 4, HashBits: 8, BufferSize: 64, WindowSize: 64, BlockSize: 64},
+		PCfg{Kind: "DHP", InputLen1: 3, InputLen2: 5, HashBits1: 8, HashBits2: 9, BufferSize: 64, WindowSize: 64, BlockSize: 64},
+		PCfg{Kind: "BDHP", InputLen1: 3, InputLen2: 4, HashBits1: 9, HashBits2: 8, BufferSize: 64, WindowSize: 64, BlockSize: 64},
+		PCfg{Kind: "BUP", InputLen: 4, HashBits: 8, BucketSize: 2, BufferSize: 64, WindowSize: 64, BlockSize: 64},
+	)
+	for _, cfg := range ntlCfgs {
+		run(cfg, minInt(h1max, 6), minInt(h2max, 8), lz.NoTrailingLiterals)
 	}
 	st.evalN(cnt, "enumerated")
-	st.note("enumerated all pairs (H1, H2) over {0x00,'a'} with |H1| <= %d, |H2| <= %d for %d tiny hash parser configurations (<= 5 / <= 6 for GSAP, OSAP)", h1max, h2max, len(cfgs))
+	st.note("enumerated all pairs (H1, H2) over {0x00,'a'} with |H1| <= %d, |H2| <= %d for %d tiny hash parser configurations (<= 5 / <= 6 for GSAP, OSAP); again with H1 parsed under NoTrailingLiterals (|H1| <= 6, |H2| <= 8) for %d configurations incl. hash tables of 256..1024 slots", h1max, h2max, len(cfgs), len(ntlCfgs))
 	fmt.Printf("ENUM-DONE %d\n", cnt)
 }
